@@ -30,9 +30,24 @@ def faulty_case(draw):
     kinds.append("none_search_init_target")
     kinds.append("none_search_target_parent")
   kinds.append("none_else")
+  kinds.append("none_search_start")
+  kinds.append("none_after_decline")
   kind = draw(st.sampled_from(kinds))
   # on the queued processor the event may also travel through the queue
   via = draw(st.sampled_from(["dispatch", "next_rtc", "complete_circuit"]))
+  if kind == "none_search_start":
+    # f names its parent but returns no status for the super-state probe; the chart is started
+    # through it (f is the start state, encloses it, or lies on its init chain)
+    through = [x for x in range(n) if f in Model(spec).path(x) or any(q[1] == f for q in Model(spec).start(x)[:-1])]
+    through = [x for x in through if x == f or f in Model(spec).path(x)]
+    return {"spec": spec, "fault_state": f, "fault": kind, "bad_target": None, "reach": "start_at",
+            "start": draw(st.sampled_from(through)), "host": draw(st.sampled_from(["plain", "instr", "queued"])),
+            "via": via}
+  if kind == "none_after_decline":
+    # f declines an event (a failed guard) and then returns no status for the re-query the processor
+    # makes to learn f's parent
+    return {"spec": spec, "fault_state": f, "fault": kind, "bad_target": None, "reach": "dispatch",
+            "start": f, "host": draw(st.sampled_from(["plain", "instr", "queued"])), "via": via}
   if kind == "none_exit_climb":
     # f returns no status for EXIT; the chart rests strictly below f and the resting state itself
     # takes a transition to a state outside f: f is exited by the climb towards the common ancestor
@@ -157,7 +172,9 @@ class C24(Prop):
           "probe while it is the PARENT of the target of a transition that climbs from the target towards the "
           "source (Samek topologies e, f, g); or a state has no 'else' clause at all - it names no parent and "
           "returns no status for anything it has no clause for - and lies on the path of a transition's target "
-          "at ANY level above it (or is the target), or on the path start_at has to climb. The fault is reached by start_at (the faulty state is the start state) or "
+          "at ANY level above it (or is the target), or on the path start_at has to climb; or a state names its parent but "
+          "returns no status for the super-state probe on the path start_at climbs; or a state declines an event and then "
+          "returns no status for the re-query that asks for its parent. The fault is reached by start_at (the faulty state is the start state) or "
           "by dispatch (the chart is started where the fault is not touched, then an event whose "
           "transition targets the faulty state - or, for the status fault, the offered event - is "
           "dispatched), on the plain, instrumented and queued processors; on the queued processor the event is "
@@ -190,6 +207,23 @@ class C24(Prop):
       spec["faults"] = {str(f): "none_exit"}
       spec["react"][a] = dict(spec["react"][a])
       spec["react"][a][ZS] = ["trans", case["target"]]
+      must_raise = True
+    elif kind == "none_search_start":
+      spec["faults"] = {str(f): "none_search_set"}
+      must_raise = True
+    elif kind == "none_after_decline":
+      spec["faults"] = {str(f): "none_empty"}
+      model.start(case["start"])
+      rest = model.cur
+      for x in model.path(rest):
+        spec["react"][x] = dict(spec["react"][x])
+        if x == f:
+          spec["react"][x][ZS] = ["decline"]
+          break
+        spec["react"][x].pop(ZS, None)
+      if f not in model.path(rest):
+        # the start-up drilled somewhere else: offer the event where f is
+        case = dict(case, start=f)
       must_raise = True
     elif kind == "none_exit_climb":
       spec["faults"] = {str(f): "none_exit"}
@@ -244,6 +278,8 @@ class C24(Prop):
                                                                       chart.state_name), "C24:silent")
     except HsmTopologyException:
       return            # the probe fault may already surface while starting
+    except PropertyViolation:
+      raise
     except HarnessBound as e:
       raise PropertyViolation("%s: start_at never returned (%s)" % (what, e), "C24:hang-start")
     except Exception as e:
@@ -263,6 +299,7 @@ class C24(Prop):
                                 what, "for its exit event, by the exit walk" if kind == "none_exit_walk" else
                                 "for its exit event, by the climb out of the source's branch" if kind == "none_exit_climb" else
                                 "on the way to the transition target" if kind == "none_else" else
+                                "for the re-query after it declined the event" if kind == "none_after_decline" else
                                 "as the parent of the transition target, for the super-state probe",
                                 chart.state_name), "C24:silent")
 
@@ -270,7 +307,7 @@ class C24(Prop):
     from miros.event import Event, signals
     from miros.hsm import HsmTopologyException
     if case["fault"] in ("none_exit_walk", "none_exit_climb", "none_search_init_target",
-                         "none_search_target_parent", "none_else"):
+                         "none_search_target_parent", "none_else", "none_search_start", "none_after_decline"):
       return self.check_status_fault(case, stats)
     spec = copy.deepcopy(case["spec"])
     f, kind = case["fault_state"], case["fault"]
